@@ -19,6 +19,8 @@ to that list and a second walk replaces every placeholder by the value looked up
 * `C12_visits` (coverage): on an `okTree` the walk of `fill` visits exactly `expected` (every required node), so every
   placeholder in a required position is found; needs `phi12`.  Placeholders in positions the walker does not reach are
   the open part (C13's coverage is complete on the probed schema; its four *order* deviations no longer matter here).
+* `phi12_markers`: the probed markers of `sort_by_text_position` are pairwise infix-free (what the print-position model
+  of the marker search assumes).
 * `C12_execute`, `C12_mismatch` (T12.4).  `C12_partial` bundles the above for the probed schema.
 * regression theorems for repaired defects: `C12_update_textual` (c3aa76c: `UPDATE … SET a=?, b=? WHERE c=?` binds
   in textual order although WHERE is visited first), `C12_case_operand`, `C12_from_arg`, `C12_second_execute`,
@@ -161,6 +163,13 @@ theorem C12_fill (σ : Schema) (P C : Nat) (q : Node) (vs : List Nat)
     | some m =>
       have hm : ¬ m.cls = P := by simpa [isP, hn] using hp
       simp [cbFillMap, hm]
+
+/-- Φ12 (markers): the markers `sort_by_text_position` renders for 30 placeholders are pairwise infix-free, so the
+search `text.find(marker)` finds a placeholder's own rendering (pins the assumption of `Params.sortByText`) -/
+theorem phi12_markers : markersOK Schema.markers = true := by decide +kernel
+
+/-- a marker scheme without a closing delimiter is rejected (`:__param_1` occurs inside `:__param_10`) -/
+example : markersOK ((List.range 30).map (fun i => [58, 112] ++ (toString i).toList.map Char.toNat)) = false := by decide
 
 /-- Φ12: the walker's branch for `Parameter` traverses nothing -/
 theorem phi12 : (σ.row P).walk = [] := by decide +kernel
